@@ -13,12 +13,14 @@ LEVEL = "exploration"
 WORKERS = {"quick": 8, "thorough": 16}
 BUDGET = {"quick": 60, "thorough": 420}
 MIN_NONTRIVIAL = {"quick": 1500, "thorough": 30000}
-REQUIRED_HOOKS = ["evaluate:I", "evaluate:C", "corpus"]
+REQUIRED_HOOKS = ["evaluate:I", "evaluate:C", "corpus", "program-reuse"]
 RULE = (
     "Each case = (CEL source, bindings) evaluated through Environment/compile/program/evaluate under InterpretedRunner and "
     "CompiledRunner; canonical outcomes (exact result class + structural value, or evaluation error) must be equal. Sources: the "
     "conformance corpus restricted to built-ins, a type-directed generator (well-typed), the same generator with type confusion and "
-    "injected failing sub-expressions (ill-typed), and a list of special spellings (keywords, literal forms). "
+    "injected failing sub-expressions (ill-typed), and a list of special spellings (keywords, literal forms). Program reuse: one program per runner "
+    "evaluated against a sequence of activations whose name sets shrink and grow (a name bound earlier and absent later, a dotted name replaced by a map), "
+    "outcomes compared at every step and against fresh programs. "
     "distinct_nontrivial counts distinct (source, bindings) pairs that contain a short-circuit operator, a macro, has(), or evaluate to an error."
 )
 ASSUMPTIONS = [
@@ -46,6 +48,12 @@ SPECIALS = [
     ("not", "ident-python-keyword"),
     ("x.class", "field-python-keyword"),
     ("{'class': 1}.class", "field-python-keyword"),
+    ('{"a": null}.a', "null-valued-entry"),
+    ('{"a": null}.a == null', "null-valued-entry"),
+    ('x.nul == null ? "x" : "y"', "null-valued-entry"),
+    ('[{"k": null}].map(m, m.k)', "null-valued-entry"),
+    ('has(x.nul)', "null-valued-entry"),
+    ('x["nul"]', "null-valued-entry"),
     ("ex_0", "ident-transpiler-temp"),
     ("CEL", "ident-transpiler-temp"),
     ("base_activation", "ident-transpiler-temp"),
@@ -229,6 +237,85 @@ def compare(acc, src, benv, origin, node=None, tag=None):
     return False
 
 
+def reuse(acc, src, benv_seq, origin, node=None):
+    """One program per runner, evaluated against a sequence of activations (the documented way to
+    use a program): the two runners must agree at every step, not only on a program's first evaluation."""
+    c = core.celpy()
+    progs = {}
+    for r in "IC":
+        try:
+            env = c.Environment(runner_class=core.runner_class(r))
+            progs[r] = env.program(env.compile(src))
+        except Exception:
+            return
+
+    def ev(r, b):
+        try:
+            return ["V", core.canon(progs[r].evaluate(b))]
+        except c.CELEvalError:
+            return ["E"]
+        except Exception as ex:
+            return ["X", "evaluate", type(ex).__name__, core._left_from(ex), core._msg(ex)]
+
+    for step, benv in enumerate(benv_seq):
+        b = MV.cel_env(benv) if benv else {}
+        oi, oc = ev("I", b), ev("C", b)
+        acc.hook("evaluate:I")
+        acc.hook("evaluate:C")
+        acc.hook("program-reuse")
+        acc.evaluations += 2
+        agree = oi == oc or oi[0] == "X"
+        acc.cell("reuse:" + origin, "step%d" % min(step, 3), diag.oclass(oi).split("@")[0], "agree" if agree else "differ")
+        if step:
+            acc.nt([src, "reuse", step, sorted(benv) if benv else []])
+        if agree:
+            continue
+        fresh_i, fresh_c = core.api_eval("I", src, b), core.api_eval("C", src, b)
+        if fresh_i == fresh_c:
+            stale = "compiled" if fresh_c != oc else "interpreted"
+            names_before = set().union(*[set(x or {}) for x in benv_seq[:step]]) if step else set()
+            gone = sorted(names_before - set(benv or {}))
+            acc.violation(
+                f"program-reuse {stale}-program-outcome-depends-on-earlier-evaluations earlier-only-names={'yes' if gone else 'no'} I={diag.oclass(oi).split('@')[0]} C={diag.oclass(oc).split('@')[0]}",
+                f"runners disagree at evaluation #{step + 1} of one program for {src[:100]!r}: interpreted={diag.oclass(oi)} compiled={diag.oclass(oc)}; fresh programs agree ({diag.oclass(fresh_i)}); bindings now {sorted(benv or {})}, names bound only earlier {gone}",
+                {"src": src, "sequence": [MV.enc_env(x or {}) for x in benv_seq[: step + 1]], "origin": origin, "kind": "reuse"},
+            )
+        else:
+            if node is None:
+                try:
+                    node = larkconv.conv(c.CELParser(tree_class=c.TranspilerTree).parse(src))
+                except Exception:
+                    node = None
+            compare(acc, src, benv, origin, node=node, tag="reuse")
+        return
+
+
+def binding_sequences(rnd, benv):
+    """Activations for one program: all names; one name dropped (another, unused, name keeps the activation non-empty); all again."""
+    names = sorted(benv)
+    seq = [dict(benv)]
+    for nm in rnd.sample(names, min(len(names), 2)):
+        d = {k: v for k, v in benv.items() if k != nm}
+        d["unused_%d" % rnd.randint(0, 9)] = ("int", 1)
+        seq.append(d)
+    seq.append(dict(benv))
+    if rnd.random() < 0.3:
+        seq.append({})
+        seq.append({names[0]: benv[names[0]]})
+    return seq
+
+
+REUSE_FIXED = [
+    ("a.b", [{"a.b": ("int", 1)}, {"a": ("map", ((("string", "b"), ("int", 2)),))}, {"a.b": ("int", 3), "a": ("map", ((("string", "b"), ("int", 4)),))}, {"a": ("map", ((("string", "c"), ("int", 5)),))}]),
+    ("a.b", [{"a": ("map", ((("string", "b"), ("int", 2)),))}, {"a.b": ("int", 1)}, {"z": ("int", 0)}]),
+    ("x || y", [{"x": ("bool", False), "y": ("bool", True)}, {"x": ("bool", False), "z": ("int", 1)}, {"y": ("bool", True), "z": ("int", 1)}]),
+    ("x ? y : z", [{"x": ("bool", True), "y": ("int", 1), "z": ("int", 2)}, {"x": ("bool", False), "y": ("int", 1)}, {"x": ("bool", True), "z": ("int", 1)}]),
+    ("[1, 2].map(i, i + k)", [{"k": ("int", 10)}, {"j": ("int", 10)}, {"i": ("int", 5), "k": ("int", 1)}]),
+    ("has(m.f) ? 1 : 2", [{"m": ("map", ((("string", "f"), ("int", 1)),))}, {"m": ("map", ())}, {"n": ("int", 1)}]),
+    ("x", [{"x": ("int", 1)}, {"x": ("string", "s")}, {"y": ("int", 1)}, {"x": ("null", None)}]),
+]
+
+
 def run(ctx):
     acc = ctx.acc
     rnd = ctx.rnd
@@ -240,7 +327,7 @@ def run(ctx):
     # 1. specials (every worker takes a slice)
     for i, (src, tag) in enumerate(SPECIALS):
         if ctx.mine(i):
-            for benv in ({}, {"x": ("map", ((("string", "get"), ("int", 1)), (("string", "keys"), ("int", 2)), (("string", "class"), ("int", 3)), (("string", "y"), ("map", ((("string", "z"), ("int", 9)),))))), "class": ("int", 5), "ex_0": ("int", 6), "CEL": ("int", 7), "match": ("int", 8), "identifiers": ("int", 9), "functions": ("int", 10), "get": ("int", 11), "package": ("string", "p"), "None": ("int", 1), "True": ("int", 1), "activation": ("int", 1), "base_activation": ("int", 2), "celpy": ("int", 3), "operator": ("int", 4), "clone": ("int", 5), "resolve_variable": ("int", 6), "lambda": ("int", 7), "not": ("int", 8)}):
+            for benv in ({}, {"x": ("map", ((("string", "get"), ("int", 1)), (("string", "keys"), ("int", 2)), (("string", "class"), ("int", 3)), (("string", "nul"), ("null", None)), (("string", "y"), ("map", ((("string", "z"), ("int", 9)),))))), "class": ("int", 5), "ex_0": ("int", 6), "CEL": ("int", 7), "match": ("int", 8), "identifiers": ("int", 9), "functions": ("int", 10), "get": ("int", 11), "package": ("string", "p"), "None": ("int", 1), "True": ("int", 1), "activation": ("int", 1), "base_activation": ("int", 2), "celpy": ("int", 3), "operator": ("int", 4), "clone": ("int", 5), "resolve_variable": ("int", 6), "lambda": ("int", 7), "not": ("int", 8)}):
                 try:
                     node = larkconv.conv(parser.parse(src))
                 except Exception:
@@ -270,6 +357,11 @@ def run(ctx):
         compare(acc, it["expr"], {}, "corpus", node=node, tag="corpus:" + it["feature"])
     acc.sample({"src": items[0]["expr"], "origin": "corpus"}, limit=3)
 
+    # 2b. one program, several activations
+    for i, (src, seq) in enumerate(REUSE_FIXED):
+        if ctx.mine(i):
+            reuse(acc, src, seq, "reuse-fixed")
+
     # 3. generated
     n = ctx.scale(9000, 480000)
     for j in range(n):
@@ -293,12 +385,19 @@ def run(ctx):
             continue
         benv = g.model_env()
         compare(acc, src, benv, origin, node=node)
+        if benv and j % 4 == 0:
+            reuse(acc, src, binding_sequences(rnd, benv), origin, node=node)
         if j % 997 == 0:
             acc.sample({"src": src, "bindings": MV.enc_env(benv), "origin": origin})
     acc.extra["generated_cases"] = n
 
 
 def replay(case):
+    if case.get("kind") == "reuse":
+        core.celpy()
+        acc = core.Acc()
+        reuse(acc, case["src"], [MV.dec_env(x) for x in case["sequence"]], case.get("origin", "replay"))
+        return not acc.violations, "\n".join(v["what"] for v in acc.violations) or "held"
     benv = MV.dec_env(case.get("bindings", {}))
     b = MV.cel_env(benv)
     oi = core.api_eval("I", case["src"], b)
